@@ -97,7 +97,7 @@ func (t *Term) String() string {
 	var s string
 	switch t.Op {
 	case "sym":
-		s = t.Name
+		s = "|" + t.Name + "|"
 	case "int":
 		if t.Val.Sign() < 0 {
 			s = "(- " + new(big.Int).Neg(t.Val).String() + ")"
@@ -113,7 +113,7 @@ func (t *Term) String() string {
 		var b strings.Builder
 		b.WriteString("(" + t.Op + " (")
 		for _, v := range t.Bound {
-			b.WriteString("(" + v.Name + " " + v.Sort + ")")
+			b.WriteString("(|" + v.Name + "| " + v.Sort + ")")
 		}
 		b.WriteString(") ")
 		if len(t.Pats) > 0 {
